@@ -163,12 +163,30 @@ class Project:
         if not os.environ.get('SA_NO_INLINE'):
             from .inline import undo_renames, undo_moves
             undo_moves(self.modules, log=self.inline_log)
+            from .inline import undo_class_splits, undo_state_objects, undo_callable_objects
+            undo_class_splits(self.modules, log=self.inline_log)
+            undo_state_objects(self.modules, log=self.inline_log)
+            undo_callable_objects(self.modules, log=self.inline_log)
+            from .inline import undo_function_objects, undo_partial_closures
+            undo_function_objects(self.modules, log=self.inline_log)
+            undo_partial_closures(self.modules, log=self.inline_log)
             from .inline import undo_method_aliases
             undo_method_aliases(self.modules, log=self.inline_log)
             undo_renames(self.modules, log=self.inline_log)
             from .inline import undo_attr_renames
             undo_attr_renames(self.modules, log=self.inline_log)
+            from .inline import undo_signature_changes
+            undo_signature_changes(self.modules, log=self.inline_log)
+            from .inline import lower_context_managers, fuse_phase_loops, lower_namedtuples, lower_memo_tables
+            if lower_context_managers(self.modules, log=self.inline_log) | fuse_phase_loops(self.modules, log=self.inline_log) | lower_namedtuples(self.modules, log=self.inline_log) \
+                    | lower_memo_tables(self.modules, log=self.inline_log):
+                for m in self.modules.values():
+                    m.tree = normalize(m.tree)
             if Inliner(self.modules, log=self.inline_log).run():
+                for m in self.modules.values():
+                    m.tree = normalize(m.tree)
+            from .inline import lower_local_raises, thread_sentinel_tests
+            if lower_local_raises(self.modules, log=self.inline_log) | thread_sentinel_tests(self.modules, log=self.inline_log):
                 for m in self.modules.values():
                     m.tree = normalize(m.tree)
         for m in self.modules.values():
